@@ -448,6 +448,7 @@ pub fn run(cfg: &SimConfig) -> anyhow::Result<(Vec<Value>, Value)> {
                 // equivocating leader: highest block it has seen certified, windows already served
                 let mut best_parent: (Slot, alpenglow::crypto::merkle::BlockHash) =
                     (Slot::genesis(), alpenglow::crypto::merkle::GENESIS_BLOCK_HASH);
+                let mut older_parent = best_parent.clone();
                 let mut served: HashSet<u64> = HashSet::new();
                 let mut hostile_done: HashSet<u64> = HashSet::new();
                 loop {
@@ -494,6 +495,14 @@ pub fn run(cfg: &SimConfig) -> anyhow::Result<(Vec<Value>, Value)> {
                                     RepairRequestType::SliceRoot(best_parent.clone(), idx_max)), v.1).await;
                                 let _ = hostile.req.send(&RepairRequest::verif_new(idx,
                                     RepairRequestType::SliceRoot(best_parent.clone(), idx0)), v.1).await;
+                                for beyond in ["1", "2", "7", "1023"] {
+                                    let bi: alpenglow::types::SliceIndex = serde_json::from_str(beyond).unwrap();
+                                    let _ = hostile.req.send(&RepairRequest::verif_new(idx,
+                                        RepairRequestType::SliceRoot(best_parent.clone(), bi)), v.1).await;
+                                    let si: alpenglow::shredder::ShredIndex = serde_json::from_str("63").unwrap();
+                                    let _ = hostile.req.send(&RepairRequest::verif_new(idx,
+                                        RepairRequestType::Shred(best_parent.clone(), bi, si)), v.1).await;
+                                }
                                 let _ = hostile.tx.send(&Transaction(vec![7u8; 600 + 100 * (j % 8)]), v.2).await;
                                 // enough oversized transactions to overrun one slice buffer
                                 for _ in 0..30 {
@@ -540,6 +549,7 @@ pub fn run(cfg: &SimConfig) -> anyhow::Result<(Vec<Value>, Value)> {
                             && let Some(h) = c.block_hash()
                             && c.slot() > best_parent.0
                         {
+                            older_parent = best_parent.clone();
                             best_parent = (c.slot(), h.clone());
                         }
                         // my next window, once the last block of the previous window is certified
@@ -551,7 +561,8 @@ pub fn run(cfg: &SimConfig) -> anyhow::Result<(Vec<Value>, Value)> {
                         if seen_slot % 4 == 3 && window % nval == i as u64 && served.insert(window) {
                             let first = window * 4;
                             let mut par_x = best_parent.clone();
-                            let mut par_y = best_parent.clone();
+                            // every other window the second twin names an OLDER certified block as its parent
+                            let mut par_y = if window % 2 == 1 { older_parent.clone() } else { best_parent.clone() };
                             let split: u32 = rng.random();
                             let mut shredder = alpenglow::shredder::RegularShredder::default();
                             use alpenglow::shredder::Shredder;
